@@ -28,7 +28,8 @@ SlotActs(s, v) ==
                                        <<[sh |-> "kvkey", id |-> 2, n |-> 2], [sh |-> "str", id |-> 2]>> >>, post |-> <<>>] >>
       [] sh = "config" -> << [a |-> "config", kc |-> "U", k |-> [sh |-> "cfgkey", id |-> 1], v |-> [sh |-> "str", id |-> 1], post |-> <<>>] >>
       [] sh = "projection" -> << [a |-> "projection", kc |-> "U", auto |-> v.auto, cs |-> "U",
-                                  strs |-> <<[sh |-> "str", id |-> 1], [sh |-> "str", id |-> 2]>>, post |-> <<>>] >>
+                                  strs |-> IF v.one THEN <<[sh |-> "str", id |-> 1]>>        \* a single definition string
+                                           ELSE <<[sh |-> "str", id |-> 1], [sh |-> "str", id |-> 2]>>, post |-> <<>>] >>
       [] sh \in {"points", "pointslist"} ->
             << [a |-> IF s[2] = "pattern" THEN "pattern" ELSE "points", kc |-> "U",
                 pairs |-> << <<Num("int", 1), Num("float", 2)>>, <<Num("float", 3), Num("int", 4)>> >>, post |-> <<>>] >>
@@ -37,7 +38,7 @@ SlotActs(s, v) ==
 
 ProbeValues(s) ==
     IF s[3] \in ScalarShapes \cup ListShapes THEN ValuesOf(s)
-    ELSE IF s[3] = "projection" THEN {[auto |-> TRUE], [auto |-> FALSE]}
+    ELSE IF s[3] = "projection" THEN {[auto |-> TRUE, one |-> FALSE], [auto |-> FALSE, one |-> FALSE], [auto |-> FALSE, one |-> TRUE]}
     ELSE {[none |-> TRUE]}
 
 \* shapes the builder knows how to write; a schema construct the extractor cannot classify ("any", "array?") is
